@@ -675,6 +675,51 @@ def run(ctx):
                 st_bad.append((c[:200], o, want))
     ctx.oblige("statement instances: T06_doc_statement / T06_inline_statement evaluated on the model hold at every generated case "
                "(and fail exactly on the trees with an empty ArrayOfTables)", not st_bad and len(stm) == len(cases), f"{len(st_bad)} deviations; first: {st_bad[:1]}")
+    # ---- tables flagged through the API (set_dotted / set_implicit): implementation vs the re-parse oracle only
+    # (the model's builder has no flags). Only VISIBLE shapes are generated: a dotted or implicit table with nothing
+    # printable below it is invisible by design.
+    rng = ctx.rng
+    def flagged(d):
+        def tbl(d, kind):
+            n = rng.choice([1, 1, 2, 3]) if kind != "T{" else rng.choice([0, 1, 2, 3])
+            toks = [kind]
+            keys = rng.sample(["a", "b", "c", "k", "x y", "é", "1"], n)
+            for k in keys:
+                toks.append(h(k.encode()))
+                r = rng.random()
+                if d <= 0 or r < 0.4:
+                    toks += ["i", str(rng.randrange(100))]
+                elif r < 0.5:
+                    toks += ["[", "i", "1", "]"]
+                elif r < 0.6 and d > 0:
+                    toks += ["A[", *tbl(d - 1, "T{"), *tbl(d - 1, rng.choice(["T{", "T{"])), "]"]
+                else:
+                    toks += tbl(d - 1, rng.choice(["T{", "T{d", "T{d", "T{m"]))
+            toks.append("}")
+            return toks
+        return tbl(d, "T{")
+    flines = ["g " + " ".join(flagged(rng.choice([1, 2, 3]))) for _ in range(20000 if ctx.tier != "quick" else 1500)]
+    flines += ["g T{ 66 T{ 78 i 1 } 61 T{m 62 T{d 63 i 2 } } }", "g T{ 70 T{m 62 A[ T{ 6e i 1 6f T{m 66 T{d 6c i 1 } } } ] } }"]
+    rc, fout, _ = run_lines(tvh, "c06", flines)
+    fout += ["CRASH"] * (len(flines) - len(fout))
+    nflag = 0
+    for ln, o in zip(flines, fout):
+        bad = None
+        f = dict(kv.split("=", 1) for kv in o.split(" ") if "=" in kv)
+        if o.startswith("PANIC") or o == "CRASH":
+            bad = f"panic: {o[:120]}"
+        elif f.get("rp") == "err":
+            bad = "the printed text of a document with dotted / implicit tables is not valid TOML"
+        elif f.get("rp") != f.get("bp"):
+            bad = f"the printed text decodes to {f.get('rp', '')[:200]}, the built tree is {f.get('bp', '')[:200]}"
+        elif f.get("twice") != "1":
+            bad = "printing twice gives different texts"
+        else:
+            nflag += 1
+        if bad:
+            txt = unh(f["txt"]).decode("utf-8", "replace")[:600] if "txt" in f else ""
+            ctx.violation(f"{ln[:160]}: {bad}", {"mode": "c06", "case": ln, "text": txt, "impl": o[:2000], "witness": ln})
+    ctx.cov.update({"flagged_table_cases": len(flines), "flagged_table_cases_round_tripping": nflag})
     ctx.oblige("correspondence c06: model (build + print + parser model) = implementation (construction API + Display + parser) on every case",
                ndis == 0, f"{ndis} disagreements; shortest: {first}")
     if ctx.broken and not ctx.violations:
